@@ -16,6 +16,37 @@ def P(s):
     return "(" + s + ")"
 
 
+def sig(a):
+    """a composed parameter list (spec/PyAst.tla Sigs): "sig:po|re|st|ko|kw" """
+    a = dict(zip(("po", "re", "st", "ko", "kw"), a[4:].split("|")))
+    parts = []
+    if a["po"]:
+        parts += [a["po"], "/"]
+    if a["re"]:
+        parts.append(a["re"])
+    if a["st"] == "bare":
+        parts.append("*")
+    elif a["st"] == "var":
+        parts.append("*r")
+    if a["ko"]:
+        parts.append(a["ko"])
+    if a["kw"]:
+        parts.append(a["kw"])
+    return ", ".join(parts)
+
+
+def shaped(c, shape, k):
+    """displays / argument lists composed entry by entry"""
+    if c == "Dict":
+        return "{" + ", ".join(("'k%d': %s" % (i, k[i])) if e == "kv" else "**" + k[i] for i, e in enumerate(shape)) + "}"
+    if c == "Call":
+        return "g(" + ", ".join({"p": k[i], "st": "*" + k[i], "kw": "key%d=%s" % (i, k[i]), "ds": "**" + k[i]}[e] for i, e in enumerate(shape)) + ")"
+    items = ", ".join(k[i] if e == "e" else "*" + k[i] for i, e in enumerate(shape))
+    if c == "Tuple":
+        return "(" + items + ("," if len(shape) == 1 else "") + ")"
+    return {"List": "[%s]", "Set": "{%s}"}[c] % items
+
+
 def expr(n):
     c, a, xs = n["c"], n["a"], n["xs"]
     k = [P(expr(x)) if x["c"] not in ("Name", "Const") else expr(x) for x in xs]
@@ -23,6 +54,10 @@ def expr(n):
         return a
     if c == "Const":
         return a
+    if a.startswith("shape:"):
+        return shaped(c, a[6:].split(","), k)
+    if c == "Lambda" and a.startswith("sig:"):
+        return "lambda %s: %s" % (sig(a), k[0]) if sig(a) else "lambda: %s" % k[0]
     if c == "BinOp":
         return "%s %s %s" % (k[0], BIN[a], k[1])
     if c == "BoolOp":
@@ -123,6 +158,8 @@ def stmt(n):
         return {"plain": "from os import path\n", "as": "from os import path as p\n", "relative1": "from . import m\n", "relative2": "from ..pkg import m as n, k\n",
                 "star": "from os import *\n", "two": "from os import path, sep as s\n"}[a]
     if c == "FunctionDef":
+        if a.startswith("sig:"):
+            return "def f(%s):\n    return %s\n" % (sig(a), e)
         if a in ARGS:
             ret = " -> None" if a in ("returns", "all") else ""
             return "def f(%s)%s:\n    return %s\n" % (ARGS[a], ret, e)
